@@ -636,6 +636,27 @@ def write_pydist(outdir):
         if pins != cur:
             bad = sorted(k for k in set(pins) | set(cur) if pins.get(k) != cur.get(k))
             raise TranslateError("pyfun: parameter lists of %s differ from the pinned ones" % bad)
+    try:
+        defs2 = pyfun.translate_wps_fill(os.path.join(REPO, "src/dtaidistance/dtw.py"))
+    except cfun.TranslateError as exc:
+        raise TranslateError("pyfun: %s" % exc)
+    cur2 = {name: [p for p, _ in params] for name, params, ret, text in defs2}
+    pins2_path = os.path.join(os.path.dirname(os.path.abspath(__file__)), "expected_fv_pywps.json")
+    if os.environ.get("VERIF_WRITE_FV_PINS") == "1":
+        json.dump(cur2, open(pins2_path, "w"), indent=1, sort_keys=True)
+    else:
+        pins2 = json.load(open(pins2_path))
+        if pins2 != cur2:
+            bad = sorted(k for k in set(pins2) | set(cur2) if pins2.get(k) != cur2.get(k))
+            raise TranslateError("pyfun: parameter lists of %s differ from the pinned ones" % bad)
+    text2 = ("(* GENERATED by tools/translate_py.py (tools/pyfun.py) from src/dtaidistance/dtw.py -- do not edit *)\n"
+             "(* dtw.warping_paths: from the length test to the end of the row loop (the matrix before the end-of-series handling) *)\n"
+             "From Coq Require Import ZArith Bool List.\nFrom DV Require Import Prelude Cost CLang.\nImport ListNotations.\n"
+             "Open Scope Z_scope.\nOpen Scope bool_scope.\n\n" + cfun.render(defs2))
+    p2 = os.path.join(outdir, "Gen_pywps.v")
+    old2 = open(p2).read() if os.path.exists(p2) else None
+    if old2 != text2:
+        open(p2, "w").write(text2)
     text = ("(* GENERATED by tools/translate_py.py (tools/pyfun.py) from src/dtaidistance/dtw.py -- do not edit *)\n"
             "(* dtw.distance translated WHOLE: everything after the dispatch to the C engine *)\n"
             "From Coq Require Import ZArith Bool List.\nFrom DV Require Import Prelude Cost CLang.\nImport ListNotations.\n"
